@@ -9,6 +9,7 @@ import (
 	"runtime"
 
 	"github.com/cockroachdb/redact"
+	"github.com/cockroachdb/redact/internal/rfmt"
 	"github.com/cockroachdb/redact/verifharness/lib"
 )
 
@@ -59,6 +60,8 @@ func runCase(c *lib.Ctx, k pCase) (res realResult) {
 		res.Out = []byte(redact.Sprintf(string(c.Subst(k.F)), args...))
 	case "Sprint":
 		res.Out = []byte(redact.Sprint(args...))
+	case "Sprintln":
+		res.Out = []byte(rfmt.Sprintln(args...))
 	case "Errorf":
 		s, err := redact.HelperForErrorf(string(c.Subst(k.F)), args...)
 		res.Out, res.Err = []byte(s), err
@@ -204,8 +207,8 @@ func caseString(c *lib.Ctx, k pCase) string {
 	switch k.E {
 	case "Sprintf", "Errorf":
 		return fmt.Sprintf("%s(%q, %s)", k.E, c.Subst(k.F), termsString(k.Ts))
-	case "Sprint":
-		return fmt.Sprintf("Sprint(%s)", termsString(k.Ts))
+	case "Sprint", "Sprintln":
+		return fmt.Sprintf("%s(%s)", k.E, termsString(k.Ts))
 	}
 	return k.E
 }
